@@ -40,7 +40,17 @@ def make_case(rng, tg, fault):
             continue
         src = rng.choice(same)
         sid = dict(src[5])["id"]
-        kids = [impl.T("references", sid)] + ([impl.T("role", "r" + str(j))] if el == "associatedParty" else [])
+        refs_ = [impl.T("references", sid)]
+        if rng.random() < 0.3:
+            # several references nodes in one element (each is replaced where it stands, in order), with or without text after them
+            others = [s for s in same if s is not src] or [src]
+            refs_.append(impl.T("references", dict(rng.choice(others)[5])["id"]))
+            if rng.random() < 0.3:
+                refs_.append(impl.T("references", sid))
+        for r_ in refs_:
+            if rng.random() < 0.3:
+                r_[3] = rng.choice([" ", "\n  ", "text after the reference"])     # the tail of a references node is not part of any copy
+        kids = refs_ + ([impl.T("role", "r" + str(j))] if el == "associatedParty" else [])
         items.append(impl.T(el, None, kids))
     rng.shuffle(items)
     title = impl.T("title", "a title")
